@@ -69,7 +69,7 @@ class RowGate:
         self.spine_atoms = {'H', 'T', 'N', 'I'}
         self.cat_atoms = {'hid', 'cx', 'cat'}
         self.paths = []
-        for sp in symex.func_sym_paths(f):
+        for sp in symex.sym_paths(docstring_free(f.body), fi=f):       # a private copy: the conditions are rewritten below
             sp.conds = [(inline_bool_helpers(ctx, f, c), t) for c, t in sp.conds]
             apps = []
             for e in sp.events:
